@@ -44,13 +44,20 @@ Inductive route_x : bytes -> Prop :=
 | rx_last d : fqdn_strict d -> route_x (cAT :: d ++ [cCOLON])
 | rx_more d r : fqdn_strict d -> route_x r -> route_x (cAT :: d ++ cCOMMA :: r).
 
-(** Path as addrsyntax() reads it: [s] (the bytes after the opening bracket up to the terminator) is
-    route ++ a ++ ">" ++ post; the first ">" ends the address; a source route only with flags = 1
-    (RCPT TO), at most 256 octets, and then no comma anywhere behind it (the C cuts the whole rest of
-    the line at commas before it looks for the colon). *)
-Definition path_x (flags : Z) (s : bytes) (body : bytes -> Prop) (rt a post : bytes) : Prop :=
-  s = rt ++ a ++ cGT :: post /\ ~ In cGT a /\ body a
-  /\ (rt = [] \/ (flags = 1%Z /\ route_x rt /\ length rt <= 256 /\ ~ In cCOMMA (a ++ cGT :: post))).
+(** Path as addrsyntax() reads it, exactly: [s] (the bytes after the opening bracket up to the terminator) is
+    route ++ a ++ ">" ++ post; the first ">" ends the address; a source route only with flags = 1 (RCPT TO),
+    at most 256 octets, and then no comma anywhere behind it (the C cuts the whole rest of the line at commas
+    before it looks for the colon; qsmtpd refuses RCPT TO parameters anyway).  rc = 3 / 4: [a] is a mailbox;
+    rc = 1: [a] is empty (MAIL FROM:<>) or "postmaster" in any case (RCPT TO). *)
+Definition addrsyntax_post_x (s : bytes) (flags : Z) (rc : Z) (addr : option bytes) (more : option nat) : Prop :=
+  rc = 0%Z \/
+  exists rt a post, s = rt ++ a ++ cGT :: post /\ ~ In cGT a
+    /\ (rt = [] \/ (flags = 1%Z /\ route_x rt /\ length rt <= 256 /\ ~ In cCOMMA (a ++ cGT :: post)))
+    /\ addr = Some (map to_lower a)
+    /\ more = match post with [] => None | _ => Some (length rt + length a + 1) end
+    /\ ((rc = 1%Z /\ ((flags = 0%Z /\ a = []) \/ (flags = 1%Z /\ map to_lower a = POSTMASTER)))
+        \/ (rc = 3%Z /\ mailbox_x lweak 3 a)
+        \/ (rc = 4%Z /\ mailbox_x lweak 4 a)).
 
 End WithOracle.
 
